@@ -318,7 +318,7 @@ def to_signum(signum):
     except ValueError:
         pass
 
-    m = re.match(r'(\w+)(\+(\d+))?', signum)
+    m = re.fullmatch(r'(\w+)(\+(\d+))?', signum)
     if m:
         name = m.group(1).upper()
         if not name.startswith('SIG'):
@@ -326,10 +326,10 @@ def to_signum(signum):
 
         offset = int(m.group(3)) if m.group(3) else 0
 
-        try:
-            return getattr(signal, name) + offset
-        except KeyError:
-            pass
+        # only real signals: SIG_IGN, SIG_DFL, SIG_BLOCK... are not signals
+        signo = getattr(signal, name, None)
+        if isinstance(signo, signal.Signals):
+            return signo + offset
 
     raise ValueError('signal invalid: {}'.format(signum))
 
